@@ -50,4 +50,5 @@ var Checks = map[string]func(env *Env, rep *Report){
 	"C05": RunC05,
 	"C10": RunC10,
 	"C11": RunC11,
+	"C14": RunC14,
 }
